@@ -101,7 +101,7 @@ def r62(db, ctx):
         rs = [(b2, t2) for b2, t2 in f.calls() if (f.callee_short(t2) or '').endswith('StripedScores::resize') and f.dominates(b2, bi) and b2 != bi]
         ok_rs = False
         for b2, t2 in rs:
-            a1 = norm(R.operand(t2['args'][1]))
+            a1 = norm(R.at(b2).operand(t2['args'][1]))
             if a1[0] == 'call' and a1[1].endswith('len') and X.canon(a1[2][0]) == X.canon(norm(R.operand(t['args'][2]))):
                 ok_rs = True
         if not ok_rs:
@@ -159,27 +159,14 @@ def multiple_of(l, A, elem, facts):
     return True, ''
 
 
-def block_offset_facts(db, E):
-    """Atoms known to be multiples of 16: the SSE2 column block offset = 16*i."""
+def block_offset_facts(db, E, f=None):
+    """Atoms known to be multiples of 16: the SSE2 column block offset = 16*i, i in 0..C/16 (see kernels.block_offset)."""
     facts = {}
     for H, L in E.loops.items():
-        it = L.iter
-        if it and it[0] == 'iter' and isinstance(it[1], tuple) and it[1][0] == 'call' and it[1][1].endswith('Iterator::map'):
-            clo = it[1][2][1]
-            if clo[0] == 'agg' and clo[1][0] == 'closure' and clo[1][1] in db.fns:
-                ce = common.return_expr_single_path_allow(db.fns[clo[1][1]])
-                if ce is not None:
-                    l = X.lin(norm(ce))
-                    ks = {k: v for k, v in l.items() if k != ''}
-                    if l.get('', 0) == 0 and len(ks) == 1:
-                        k0, v0 = list(ks.items())[0]
-                        mult = int(v0) if k0 == 'arg2' else (16 if 'USIZE' in k0 and 'arg2' in k0 else None)
-                        if mult:
-                            facts[X.canon(('elem', it, H))] = mult
-        # counted form: `for block in 0..C::Quotient::USIZE { let offset = block * 16; .. }` — the block index itself (multiplier 1);
-        # the factor 16 is then the coefficient of the atom
-        if it and it[0] == 'range' and norm(it[1]) == ('k', 0) and common.is_usize_const(it[2], 'Q'):
-            facts[X.canon(('elem', it, H))] = ('block', 1)
+        bo = K.block_offset(db, f if f is not None else E.fn, E, H)
+        if bo is None:
+            continue
+        facts[X.canon(('elem', L.iter, H))] = 16 if bo[0] == 'offset' else ('block', 1)
     return facts
 
 
@@ -191,7 +178,7 @@ def r64(db, ctx):
         if E is None:
             ctx.fail('R6.4', f, 'lane evaluation', f'reason=unrecognised-shape: {err}')
             continue
-        facts = block_offset_facts(db, E)
+        facts = block_offset_facts(db, E, f)
         for a in E.acc:
             if not a.aligned:
                 continue
@@ -429,7 +416,7 @@ def r63b(db, ctx):
         f, E, err = K.evaluate(db, path)
         if E is None:
             continue
-        facts = block_offset_facts(db, E)
+        facts = block_offset_facts(db, E, f)
         for a in E.acc:
             if a.kind not in ('load', 'store', 'gather') or not isinstance(a.ptr, Ptr):
                 continue
